@@ -129,6 +129,7 @@ pub trait DNSIterable {
         self.parsed_packet_mut().packet = Some(uncompressed);
         self.set_offset(new_offset);
         self.recompute_sections();
+        self.parsed_packet_mut().maybe_compressed = false;
         self.recompute_rr();
         Ok(())
     }
@@ -271,6 +272,7 @@ pub trait TypedIterable {
             self.set_offset(new_offset);
             self.recompute_rr(); // XXX - Just for sanity, but not strictly required here
             self.recompute_sections();
+            self.parsed_packet_mut().maybe_compressed = false;
         }
         let offset = self.offset().ok_or(DSError::VoidRecord)?;
         debug_assert!(!self.parsed_packet().maybe_compressed);
@@ -305,6 +307,7 @@ pub trait TypedIterable {
             self.set_offset(new_offset);
             self.recompute_rr(); // XXX - Just for sanity, but not strictly required here
             self.recompute_sections();
+            self.parsed_packet_mut().maybe_compressed = false;
         }
         let rr_len = self.offset_next()
             - self
